@@ -54,6 +54,9 @@ type acase struct {
 	W2     win    `json:"w2"`
 	Rel    string `json:"rel"`
 	Expect string `json:"expect"`
+	// ExpectIso is the expectation for methods of the specification's Isolated class
+	ExpectIso string   `json:"expectIso,omitempty"`
+	Isolated  []string `json:"isolated,omitempty"` // header line only
 	Alg    string `json:"alg"`
 	Method string `json:"method,omitempty"` // set in failure cases: run only this method
 }
@@ -124,6 +127,10 @@ type denseMethod struct {
 	transSelf     bool // applies to a = recv.T()
 }
 
+// isolatedClass is filled from the header line the specification prints (MatAlias.tla, Isolated);
+// methods in it take the case's expectIso.
+var isolatedClass = map[string]bool{}
+
 func fresh(r, c int, salt int) *mat.Dense {
 	d := make([]float64, r*c)
 	for p := range d {
@@ -138,6 +145,15 @@ func freshVec(n int, salt int) *mat.VecDense {
 		d[p] = float64(1 + (p*3+salt)%7)
 	}
 	return mat.NewVecDense(n, d)
+}
+
+// dominant returns a well conditioned n x n matrix (strictly diagonally dominant).
+func dominant(n int, salt int) *mat.Dense {
+	d := fresh(n, n, salt)
+	for i := 0; i < n; i++ {
+		d.Set(i, i, d.At(i, i)+float64(12*n))
+	}
+	return d
 }
 
 func same(r, c, ar, ac int) bool  { return r == ar && c == ac }
@@ -169,6 +185,24 @@ var denseMethods = []denseMethod{
 	{name: "Stack(f,A)", ok: func(r, c, ar, ac int) bool { return ac == c && ar < r }, run: func(m, A *mat.Dense, r, c, ar, ac int) { m.Stack(fresh(r-ar, c, 8), A) }},
 	{name: "Augment(A,f)", ok: func(r, c, ar, ac int) bool { return ar == r && ac < c }, run: func(m, A *mat.Dense, r, c, ar, ac int) { m.Augment(A, fresh(r, c-ac, 9)) }},
 	{name: "Augment(f,A)", ok: func(r, c, ar, ac int) bool { return ar == r && ac < c }, run: func(m, A *mat.Dense, r, c, ar, ac int) { m.Augment(fresh(r, c-ac, 9), A) }},
+	// solvers, inverse, matrix functions and products of several factors (mat/solve.go, dense_arithmetic.go)
+	{name: "Inverse(A)", ok: func(r, c, ar, ac int) bool { return same(r, c, ar, ac) && r == c }, selfOK: true, run: func(m, A *mat.Dense, r, c, ar, ac int) { _ = m.Inverse(A) }},
+	{name: "Solve(A,f)", ok: func(r, c, ar, ac int) bool { return ac == r && ar == ac }, selfOK: true, run: func(m, A *mat.Dense, r, c, ar, ac int) { _ = m.Solve(A, fresh(ar, c, 10)) }},
+	{name: "Solve(f,A)", ok: func(r, c, ar, ac int) bool { return ac == c && ar == r }, selfOK: true, run: func(m, A *mat.Dense, r, c, ar, ac int) { _ = m.Solve(dominant(r, 11), A) }},
+	{name: "Solve(fLS,A)", ok: func(r, c, ar, ac int) bool { return ac == c && ar == r+1 }, run: func(m, A *mat.Dense, r, c, ar, ac int) { _ = m.Solve(fresh(ar, r, 12), A) }},
+	{name: "Exp(A)", ok: func(r, c, ar, ac int) bool { return same(r, c, ar, ac) && r == c }, selfOK: true, run: func(m, A *mat.Dense, r, c, ar, ac int) { m.Exp(A) }},
+	{name: "Product(A,f,f)", ok: func(r, c, ar, ac int) bool { return ar == r }, selfOK: true, run: func(m, A *mat.Dense, r, c, ar, ac int) { m.Product(A, fresh(ac, 2, 13), fresh(2, c, 14)) }},
+	{name: "Product(f,f,A)", ok: func(r, c, ar, ac int) bool { return ac == c }, selfOK: true, run: func(m, A *mat.Dense, r, c, ar, ac int) { m.Product(fresh(r, 2, 13), fresh(2, ar, 14), A) }},
+	{name: "Product(f,A,f)", ok: func(r, c, ar, ac int) bool { return true }, run: func(m, A *mat.Dense, r, c, ar, ac int) { m.Product(fresh(r, ar, 13), A, fresh(ac, c, 14)) }},
+	{name: "Outer(2,f,f)+Add(A)", ok: same, selfOK: true, run: func(m, A *mat.Dense, r, c, ar, ac int) {
+		var o mat.Dense
+		o.Outer(2, freshVec(r, 3), freshVec(c, 4))
+		m.Add(A, &o)
+	}},
+	{name: "MulElem(A,A)", ok: same, selfOK: true, run: func(m, A *mat.Dense, r, c, ar, ac int) { m.MulElem(A, A) }},
+	{name: "Sub(A,A)", ok: same, selfOK: true, run: func(m, A *mat.Dense, r, c, ar, ac int) { m.Sub(A, A) }},
+	{name: "Mul(A,A.T)", ok: func(r, c, ar, ac int) bool { return r == ar && c == ar }, run: func(m, A *mat.Dense, r, c, ar, ac int) { m.Mul(A, A.T()) }},
+	{name: "Mul(A.T,A)", ok: func(r, c, ar, ac int) bool { return r == ac && c == ac }, run: func(m, A *mat.Dense, r, c, ar, ac int) { m.Mul(A.T(), A) }},
 	// two aliasing relations at once: the receiver itself is one operand, the window alias the other
 	{name: "Add(m,A)", ok: same, run: func(m, A *mat.Dense, r, c, ar, ac int) { m.Add(m, A) }},
 	{name: "Add(A,m)", ok: same, run: func(m, A *mat.Dense, r, c, ar, ac int) { m.Add(A, m) }},
@@ -222,6 +256,9 @@ func runDense(c *acase, seed int64, sum *core.Summary) {
 			continue
 		}
 		expect := c.Expect
+		if isolatedClass[dm.name] && c.ExpectIso != "" {
+			expect = c.ExpectIso
+		}
 		if dm.copySemantics {
 			// Dense.Copy is direction aware: the result is the source's old
 			// values for every relation of windows of one parent.
@@ -302,6 +339,8 @@ var vecMethods = []vecMethod{
 	{name: "DivElemVec(A,v)", ok: eqn, run: func(v, A *mat.VecDense, n, an int) { v.DivElemVec(A, v) }},
 	{name: "AddScaledVec(v,2,A)", ok: eqn, run: func(v, A *mat.VecDense, n, an int) { v.AddScaledVec(v, 2, A) }},
 	{name: "AddScaledVec(A,2,v)", ok: eqn, run: func(v, A *mat.VecDense, n, an int) { v.AddScaledVec(A, 2, v) }},
+	{name: "SolveVec(f,A)", ok: eqn, selfOK: true, run: func(v, A *mat.VecDense, n, an int) { _ = v.SolveVec(dominant(n, 7), A) }},
+	{name: "SolveVec(fLS,A)", ok: func(n, an int) bool { return an == n+1 }, run: func(v, A *mat.VecDense, n, an int) { _ = v.SolveVec(fresh(an, n, 8), A) }},
 	{name: "MulVec(f,A)", ok: func(n, an int) bool { return true }, selfOK: true, run: func(v, A *mat.VecDense, n, an int) { v.MulVec(fresh(n, an, 6), A) }},
 	{name: "MulVec(f.T,A)", ok: func(n, an int) bool { return true }, selfOK: true, run: func(v, A *mat.VecDense, n, an int) { v.MulVec(fresh(an, n, 6).T(), A) }},
 }
@@ -367,7 +406,11 @@ func runVec(c *acase, seed int64, sum *core.Summary) {
 		if c.Rel != "disjoint" {
 			sum.Nontrivial++
 		}
-		judge(sum, c, vm.name, c.Expect, out, backing, snapshot, want, "")
+		vexpect := c.Expect
+		if isolatedClass[vm.name] && c.ExpectIso != "" {
+			vexpect = c.ExpectIso
+		}
+		judge(sum, c, vm.name, vexpect, out, backing, snapshot, want, "")
 	}
 }
 
@@ -604,6 +647,22 @@ func replay(in *core.Lines, args []string, seed int64, sum *core.Summary) error 
 		c := new(acase)
 		if err := json.Unmarshal(b, c); err != nil {
 			return fmt.Errorf("line %d: %v", in.N, err)
+		}
+		if c.Fam == "header" {
+			known := map[string]bool{}
+			for i := range denseMethods {
+				known[denseMethods[i].name] = true
+			}
+			for i := range vecMethods {
+				known[vecMethods[i].name] = true
+			}
+			for _, n := range c.Isolated {
+				if !known[n] {
+					sum.Fail("matalias:binding:isolated-class-unknown-method", "the specification's Isolated class names "+n+", which the harness does not drive", c)
+				}
+				isolatedClass[n] = true
+			}
+			continue
 		}
 		rels[c.Rel+"/"+c.Expect]++
 		switch c.Fam {
